@@ -4,11 +4,12 @@ import FastgoModel.Container.Members
 import FastgoModel.Reader.Replay
 import FastgoModel.Writer.Tokens
 import FastgoModel.Proofs.HuffInstance
+import FastgoModel.Proofs.WriterWrap
 /-
   Line-protocol driver of the executable models (`lake build fgmodel`).
   One case per input line, one answer line per case. Bytes travel as lowercase hex.
 -/
-open Fastgo Fastgo.Spec Fastgo.Writer Fastgo.Container Fastgo.Reader
+open Fastgo Fastgo.Spec Fastgo.Writer Fastgo.Container Fastgo.Reader Fastgo.CWriter
 
 def hexVal (c : Char) : Option Nat :=
   if '0' ≤ c ∧ c ≤ '9' then some (c.toNat - '0'.toNat)
@@ -69,6 +70,7 @@ def parseOp (s : String) : Option Writer.Op :=
   else if s = "c" then some .close
   else if s = "r" then some (.reset { fail := fun _ => false })
   else if s.startsWith "w" then some (.write (List.replicate (parseNat! (s.drop 1).toString) 0))
+  else if s.startsWith "x" then (parseHex (s.drop 1).toString).map .write
   else none
 
 def errStr : Option Writer.Err → String
@@ -105,6 +107,46 @@ def answerH (max : Nat) (fails : List Nat) (ops : List Writer.Op) (blocks : List
   let (w, lines) := go w0 ops []
   let bad := match w.huff.ls.bad with | none => "-" | some m => m
   s!"{String.intercalate ";" lines} left={w.huff.ls.log.length} bad={bad}"
+
+/-! ### ZW / GW: the zlib and gzip Writer models over the flate Writer control model with replayed leaves -/
+
+def wrapLine (first : Bool) (op : Writer.Op) (r : OpRes) (w : WState RMF Unit) : String :=
+  let base := s!"{r.n},{errStr r.err},{w.dyn.idx},{w.dyn.buf.length},{w.dyn.processed},{w.dyn.tokens.length},{w.dst.calls}"
+  let isClose := match op with | .close => true | _ => false
+  let hx := fun (bs : List UInt8) => if bs.isEmpty then "-" else toHex bs.toArray
+  if isClose && r.err.isNone then s!"{base},t={hx (w.dst.got.headD [])}"
+  else if first then s!"{base},h={hx w.dst.bytes}"
+  else base
+
+def answerZW (level : Int) (window maxTok : Nat) (fails : List Nat) (ops : List Writer.Op) (log : List Ev) : String :=
+  let L := replayLeaves log
+  let c : Writer.Cfg := { window := window, maxTok := maxTok }
+  let O := dynOps L c
+  let z0 : ZW (WState RMF Unit) := ZW.init (WState.init L { fail := fun k => fails.contains k }) level
+  let rec go (z : ZW (WState RMF Unit)) (ops : List Writer.Op) (acc : List String) : ZW (WState RMF Unit) × List String :=
+    match ops with
+    | [] => (z, acc.reverse)
+    | op :: rest =>
+      let (z1, r) := zStep O z op
+      go z1 rest (wrapLine acc.isEmpty op r z1.inner :: acc)
+  let (z, lines) := go z0 ops []
+  let bad := match z.inner.dyn.mf.bad with | none => "-" | some m => m
+  s!"{String.intercalate ";" lines} left={(takeChunks z.inner.dyn.mf.log).2.length} bad={bad}"
+
+def answerGW (level : Int) (window maxTok : Nat) (fails : List Nat) (h : GzHeader) (ops : List Writer.Op) (log : List Ev) : String :=
+  let L := replayLeaves log
+  let c : Writer.Cfg := { window := window, maxTok := maxTok }
+  let O := dynOps L c
+  let z0 : GW (WState RMF Unit) := GW.init (WState.init L { fail := fun k => fails.contains k }) level h
+  let rec go (z : GW (WState RMF Unit)) (ops : List Writer.Op) (acc : List String) : GW (WState RMF Unit) × List String :=
+    match ops with
+    | [] => (z, acc.reverse)
+    | op :: rest =>
+      let (z1, r) := gStep O z op
+      go z1 rest (wrapLine acc.isEmpty op r z1.inner :: acc)
+  let (z, lines) := go z0 ops []
+  let bad := match z.inner.dyn.mf.bad with | none => "-" | some m => m
+  s!"{String.intercalate ";" lines} left={(takeChunks z.inner.dyn.mf.log).2.length} bad={bad}"
 
 /-! ### G: leaf-contract check of one recorded match-finder call -/
 
@@ -225,6 +267,19 @@ def step (line : String) : String :=
     let os := (ops.splitOn ",").filterMap parseOp
     let bs := if blocks = "-" then [] else (blocks.splitOn ";").map fun b => (b.splitOn ".").map parseNat!
     answerH (parseNat! max) fl os bs
+  | ["ZW", level, window, maxTok, fails, ops, evs] =>
+    let fl := if fails = "-" then [] else (fails.splitOn ",").map parseNat!
+    let os := (ops.splitOn ",").filterMap parseOp
+    let es := if evs = "-" then [] else (evs.splitOn ";").filterMap parseEv
+    answerZW (parseInt! level) (parseNat! window) (parseNat! maxTok) fl os es
+  | ["GW", level, window, maxTok, fails, extra, name, comment, ops, evs] =>
+    match optHex extra, parseHex name, parseHex comment with
+    | some e, some n, some cm =>
+      let fl := if fails = "-" then [] else (fails.splitOn ",").map parseNat!
+      let os := (ops.splitOn ",").filterMap parseOp
+      let es := if evs = "-" then [] else (evs.splitOn ";").filterMap parseEv
+      answerGW (parseInt! level) (parseNat! window) (parseNat! maxTok) fl { extra := e, name := n, comment := cm } os es
+    | _, _, _ => "bad-hex"
   | ["G", window, pos, stop, buf, toks] =>
     match parseHex buf with
     | some b =>
